@@ -278,6 +278,19 @@ fn oracle_encodings(ec: &EncCase, obs: &mut Obs) -> Result<(), Violation> {
     let sw = essential_sign::encode::signature(&rsig);
     ensure!(sw[..8] == bytes_to_words(&sig.0)[..] && sw[8] == sig.1 as i64, "sig:sig-encoding", "encode::signature is not [8 BE words of the compact signature, recovery id]");
     ensure!(essential_sign::encode::signature_as_bytes(&rsig)[..] == words_to_bytes(&sw)[..], "sig:sig-bytes", "signature_as_bytes is not the BE bytes of the words");
+    // every recovery id is part of the encoding: (r, s, 0..=3) give four different word strings, each ending in its id
+    {
+        let mut seen: Vec<[i64; 9]> = Vec::new();
+        for id in 0..4i32 {
+            let rid = RecoveryId::try_from(id).map_err(|e| viol!("sig:id-range", "{e}"))?;
+            let Ok(rs) = RecoverableSignature::from_compact(&sig.0, rid) else { continue };
+            let w = essential_sign::encode::signature(&rs);
+            ensure!(w[..8] == bytes_to_words(&sig.0)[..] && w[8] == id as i64, "sig:sig-encoding", "encode::signature of (r, s, id {id}) is {w:?}");
+            ensure!(!seen.contains(&w), "sig:sig-encoding-not-injective", "recovery id {id} encodes like another id: {w:?}");
+            ensure!(essential_sign::encode::signature_as_bytes(&rs)[..] == words_to_bytes(&w)[..], "sig:sig-bytes", "signature_as_bytes is not the BE bytes of the words (id {id})");
+            seen.push(w);
+        }
+    }
     // the same through the high-S form: encodes to different words, decodes back, and the VM recovers the same key
     {
         let hs = high_s_twin(&sig);
